@@ -53,10 +53,29 @@ def dyadic_matrix(rng, rows, cols, den=8, lim=16):
             return a
 
 
-def factor_set(rng, rank, heights, generic=False):
-    """list of (I_m x rank) dyadic matrices without zero columns; generic: no two components look alike"""
+def int_norm_matrix(rng, rows, cols, den=8, lim=8):
+    """dyadic matrix whose columns have an exactly representable norm (integer vector with a perfect-square sum of squares,
+    divided by den): sqrt is exact on it, the norm tape is a short dyadic and the exact Q evaluation of the model stays on
+    small denominators (cheap Qred).  The remaining share of the cases uses unrestricted dyadic columns."""
+    a = np.zeros((rows, cols), dtype=np.float64)
+    for j in range(cols):
+        while True:
+            v = [rng.randint(-lim, lim) for _ in range(rows)]
+            s2 = sum(x * x for x in v)
+            if s2 > 0 and math.isqrt(s2) ** 2 == s2:
+                break
+        a[:, j] = np.array(v, dtype=np.float64) / den
+    return a
+
+
+def factor_set(rng, rank, heights, generic=False, intnorm=None):
+    """list of (I_m x rank) dyadic matrices without zero columns; generic: no two components look alike;
+    intnorm (default: 3 times out of 4): columns with exactly representable norms"""
+    if intnorm is None:
+        intnorm = rng.random() < 0.75
+    mk = int_norm_matrix if intnorm else dyadic_matrix
     for _ in range(200):
-        fs = [dyadic_matrix(rng, h, rank) for h in heights]
+        fs = [mk(rng, h, rank) for h in heights]
         if not generic or rank == 1:
             return fs
         c = np.ones((rank, rank))
